@@ -210,6 +210,11 @@ def mergeLocals (a : Locals) : Locals → Except String Locals
       let a' ← bindLocal a n s
       mergeLocals a' rest
 
+/-- the locals a call of `f` leaves behind: those the signature of the compiled body lists; `hex_get_usr_field` may run
+    under its specification-level reading (`ILSem.lean: getUsrFieldIL`), which sets `ret_val` (64 bit) -/
+def callLocals (f : String) (sigLocals : Locals) : Locals :=
+  if f == "hex_get_usr_field" then sigLocals ++ [("ret_val", .bv 64)] else sigLocals
+
 mutual
 def wfEffect (env : SortEnv) (locals : Locals) : ILEffect → Except String Locals
   | .setl n v => do
@@ -258,7 +263,7 @@ def wfEffect (env : SortEnv) (locals : Locals) : ILEffect → Except String Loca
               | some ps => ps != s)
             match bad with
             | some (p, s) => .error s!"{f}: argument of sort {s.render} for parameter {(p.map ILSort.render).getD "external"}"
-            | none => mergeLocals locals sig.locals
+            | none => mergeLocals locals (callLocals f sig.locals)
       else if f == "HEX_GET_NPC" then bindLocal locals "ret_val" (.bv 64)
       else if f == "HEX_STORE_SLOT_CANCELLED" || f == "HEX_SETROUND" || f == "WRITE_REG" || f == "HEX_TRAP" then .ok locals
       else .error s!"unknown effect {f}"
